@@ -13,13 +13,14 @@ pub struct Sink {
     pub shards: usize,
     pub events: u64,
     pub distinct_inputs: u64,
+    pub monitored: u64,
     pub samples: Vec<Value>
 }
 
 impl Sink {
     pub fn new(dir: &str, shard_cap: usize) -> Self {
         std::fs::create_dir_all(dir).unwrap();
-        Sink { dir: dir.into(), shard_cap, cur: None, in_cur: 0, shards: 0, events: 0, distinct_inputs: 0, samples: vec![] }
+        Sink { dir: dir.into(), shard_cap, cur: None, in_cur: 0, shards: 0, events: 0, distinct_inputs: 0, monitored: 0, samples: vec![] }
     }
     pub fn put(&mut self, ev: Value) {
         if self.cur.is_none() || self.in_cur >= self.shard_cap {
@@ -40,7 +41,7 @@ impl Sink {
     }
     pub fn finish(mut self) -> Value {
         if let Some(mut w) = self.cur.take() { w.flush().unwrap() }
-        json!({"events": self.events, "shards": self.shards, "distinct_inputs": self.distinct_inputs, "samples": self.samples})
+        json!({"events": self.events, "shards": self.shards, "distinct_inputs": self.distinct_inputs, "monitored": self.monitored, "samples": self.samples})
     }
 }
 
@@ -294,6 +295,28 @@ fn gen_toklen(sink: &mut Sink, tier: &str, seed: u64) {
     for t in [Token::Bool(true), Token::Bool(false), Token::Null, Token::Undefined, Token::Break, Token::BeginBytes, Token::BeginString, Token::BeginArray, Token::BeginMap] { emit(sink, t) }
 }
 
+/// decode::info::Size::head / Size::tail on every first byte and every head.
+#[cfg(feature = "std")]
+fn gen_sizes(sink: &mut Sink) {
+    use minicbor::decode::info::Size;
+    for b in 0..=255u8 {
+        let obs = match Size::head(b) { Ok(n) => json!({"p":"ok","v":{"k":"nat","n":n},"pos":0}), Err(e) => json!({"p":"err","cls":crate::abs::err_class(&e),"pos":0}) };
+        sink.put(json!({"fam":"size","name":"head","in":{"fst":b},"obs":obs}));
+        for extra in [vec![], vec![0u8], vec![1, 2], vec![0, 0, 1, 0], vec![255; 8], vec![0, 0, 0, 0, 0, 0, 1, 0]] {
+            let mut h = vec![b]; h.extend_from_slice(&extra);
+            let obs = crate::ops::guarded(|| match Size::tail(&h) {
+                Ok(Size::Head) => json!({"p":"ok","v":{"k":"size","kind":"head","n":crate::abs::u64b(0)},"pos":0}),
+                Ok(Size::Indef) => json!({"p":"ok","v":{"k":"size","kind":"indef","n":crate::abs::u64b(0)},"pos":0}),
+                Ok(Size::Bytes(n)) => json!({"p":"ok","v":{"k":"size","kind":"bytes","n":crate::abs::u64b(n)},"pos":0}),
+                Ok(Size::Items(n)) => json!({"p":"ok","v":{"k":"size","kind":"items","n":crate::abs::u64b(n)},"pos":0}),
+                Err(e) => json!({"p":"err","cls":crate::abs::err_class(&e),"pos":0}) });
+            sink.put(json!({"fam":"size","name":"tail","in":{"head":crate::abs::bytes(&h)},"obs":obs}));
+        }
+    }
+    let obs = crate::ops::guarded(|| match Size::tail(&[]) { Ok(_) => json!({"p":"ok","pos":0,"v":{"k":"?"}}), Err(e) => json!({"p":"err","cls":crate::abs::err_class(&e),"pos":0}) });
+    sink.put(json!({"fam":"size","name":"tail","in":{"head":[]},"obs":obs}));
+}
+
 /// C11: tokenise + re-encode generated item sequences (preferred and not), mutated and random bytes; encode + tokenise
 /// random token sequences.
 #[cfg(all(feature = "alloc", feature = "half"))]
@@ -512,7 +535,7 @@ pub fn cmd_gen(args: &[String]) -> i32 {
         #[cfg(all(feature = "std", feature = "half"))]
         "c07" => { gen_typed(&mut sink, tier, seed, "rt"); gen_toklen(&mut sink, tier, seed) }
         #[cfg(feature = "std")]
-        "c01mut" => gen_typed(&mut sink, tier, seed, "mut"),
+        "c01mut" => { gen_typed(&mut sink, tier, seed, "mut"); for e in crate::drops::events() { sink.put(e) } gen_sizes(&mut sink) }
         #[cfg(all(feature = "alloc", feature = "half"))]
         "c04" => gen_c04(&mut sink, tier, seed),
         #[cfg(all(feature = "alloc", feature = "half"))]
